@@ -21,7 +21,12 @@ import (
 // Relay cases: datagrams sent to the UDP socket of a real UDPRelay (readLoop + one handlePacket
 // goroutine per datagram); the observation is every SendPacket the tunnel doubles received.
 //
-//	relay <paced|burst|gated> T ds <n> <datagram>*n  ##  fw <m> (<host> <port> <payload>)*m   (sorted)
+//	relay <paced|burst|gated> <dns 0|1> T ds <n> <datagram>*n
+//	  ##  fw <m> (<host> <port> <payload>)*m dq <k> (<server> <query>)*k rx <j> <datagram>*j      (each list sorted)
+//
+// fw: SendPacket calls of the tunnel doubles; dq: QueryDNS calls of the DNS-handler double (installed
+// when dns=1); rx: datagrams the application socket received back. The doubles answer every packet:
+// a tunnel with A5 ++ payload (through ReceivePacket -> receiveLoop), the DNS handler with D5 ++ query.
 //
 // paced: each datagram is delivered to its tunnel before the next one is sent.
 // burst: GOMAXPROCS(1) and all datagrams written before the harness yields, so readLoop drains the
@@ -33,6 +38,7 @@ import (
 type relayCreator struct {
 	mu      sync.Mutex
 	recv    []string
+	dq      []string
 	want    int // packets expected (valid datagrams)
 	full    chan struct{}
 	gate    chan struct{} // nil = no gate
@@ -45,12 +51,25 @@ type relayTunnel struct {
 	c    *relayCreator
 	host string
 	port int
+	resp chan []byte
 	done chan struct{}
 	once sync.Once
 }
 
 func (c *relayCreator) CreateUDPTunnel(mappingID string, targetClientID int64, host string, port int, secret string) (socks5.UDPTunnelConn, error) {
-	return &relayTunnel{c: c, host: host, port: port, done: make(chan struct{})}, nil
+	return &relayTunnel{c: c, host: host, port: port, resp: make(chan []byte, 64), done: make(chan struct{})}, nil
+}
+
+// QueryDNS: the DNS-handler double (control channel).
+func (c *relayCreator) QueryDNS(targetClientID int64, dnsServer string, rawQuery []byte) ([]byte, error) {
+	q := append([]byte(nil), rawQuery...)
+	c.mu.Lock()
+	c.dq = append(c.dq, vc.Hex([]byte(dnsServer))+" "+vc.Hex(q))
+	if len(c.recv)+len(c.dq) == c.want {
+		close(c.full)
+	}
+	c.mu.Unlock()
+	return append([]byte{0xD5}, q...), nil
 }
 
 func (c *relayCreator) open() {
@@ -74,22 +93,42 @@ func (t *relayTunnel) SendPacket(data []byte) error {
 	rec := fmt.Sprintf("%s %d %s", vc.Hex([]byte(t.host)), t.port, vc.Hex(data))
 	c.mu.Lock()
 	c.recv = append(c.recv, rec)
-	if len(c.recv) == c.want {
+	if len(c.recv)+len(c.dq) == c.want {
 		close(c.full)
 	}
 	c.mu.Unlock()
+	select {
+	case t.resp <- append([]byte{0xA5}, data...):
+	default:
+	}
 	return nil
 }
-func (t *relayTunnel) ReceivePacket() ([]byte, error) { <-t.done; return nil, net.ErrClosed }
+func (t *relayTunnel) ReceivePacket() ([]byte, error) {
+	select {
+	case r := <-t.resp:
+		return r, nil
+	case <-t.done:
+		return nil, net.ErrClosed
+	}
+}
 func (t *relayTunnel) Close() error                   { t.once.Do(func() { close(t.done) }); return nil }
 
 func (c *relayCreator) count() int {
 	c.mu.Lock()
 	defer c.mu.Unlock()
-	return len(c.recv)
+	return len(c.recv) + len(c.dq)
 }
 
-func execRelay(mode string, ds [][]byte) (string, string) {
+func sortedList(hdr string, xs []string) string {
+	sort.Strings(xs)
+	o := hdr + " " + strconv.Itoa(len(xs))
+	if len(xs) > 0 {
+		o += " " + strings.Join(xs, " ")
+	}
+	return o
+}
+
+func execRelay(mode string, dns bool, ds [][]byte) (string, string) {
 	tb := newTables()
 	hexes := make([]string, len(ds))
 	valid := make([]bool, len(ds))
@@ -101,12 +140,11 @@ func execRelay(mode string, ds [][]byte) (string, string) {
 		if h, p, _, err := socks5.VerifParseUDPHeader(d); err == nil {
 			valid[i] = true
 			nvalid++
-			dests[fmt.Sprintf("%s:%d", h, p)] = true
+			tb.host(h)
+			if !(dns && p == 53) {
+				dests[fmt.Sprintf("%s:%d", h, p)] = true
+			}
 		}
-	}
-	cs := vc.Join("relay", mode, tb.String(), "ds", strconv.Itoa(len(ds)))
-	if len(ds) > 0 {
-		cs += " " + strings.Join(hexes, " ")
 	}
 	obs := guarded(func() string {
 		if mode == "burst" {
@@ -117,7 +155,7 @@ func execRelay(mode string, ds [][]byte) (string, string) {
 		if nvalid == 0 {
 			close(cr.full)
 		}
-		if mode == "gated" && nvalid > 0 {
+		if mode == "gated" && len(dests) > 0 {
 			cr.gate = make(chan struct{})
 			cr.gateN = len(dests)
 		}
@@ -131,6 +169,9 @@ func execRelay(mode string, ds [][]byte) (string, string) {
 			return "relay-error " + strings.ReplaceAll(err.Error(), " ", "_")
 		}
 		defer relay.Close()
+		if dns {
+			relay.SetDNSHandler(cr)
+		}
 		app, err := net.DialUDP("udp", nil, relay.GetBindAddr())
 		if err != nil {
 			return "dial-error " + strings.ReplaceAll(err.Error(), " ", "_")
@@ -162,44 +203,56 @@ func execRelay(mode string, ds [][]byte) (string, string) {
 			time.Sleep(20 * time.Millisecond)
 		}
 		t.Stop()
+		// what comes back to the application: one datagram per answer
+		var rx []string
+		buf := make([]byte, 65536)
+		app.SetReadDeadline(time.Now().Add(3 * time.Second))
+		for len(rx) < nvalid {
+			n, err := app.Read(buf)
+			if err != nil {
+				break
+			}
+			rx = append(rx, vc.Hex(buf[:n]))
+			tb.scan(buf[:n]) // answers to names that spell an IPv6 literal come back under the address
+		}
 		cr.mu.Lock()
 		got := append([]string(nil), cr.recv...)
+		dq := append([]string(nil), cr.dq...)
 		cr.open()
 		cr.mu.Unlock()
-		sort.Strings(got)
-		o := "fw " + strconv.Itoa(len(got))
-		if len(got) > 0 {
-			o += " " + strings.Join(got, " ")
-		}
-		return o
+		return sortedList("fw", got) + " " + sortedList("dq", dq) + " " + sortedList("rx", rx)
 	})
+	cs := vc.Join("relay", mode, b01(dns), tb.String(), "ds", strconv.Itoa(len(ds)))
+	if len(ds) > 0 {
+		cs += " " + strings.Join(hexes, " ")
+	}
 	return cs, obs
 }
 
-func (e *emitter) relay(mode string, ds [][]byte, kind string) {
-	cs, obs := execRelay(mode, ds)
+func (e *emitter) relay(mode string, dns bool, ds [][]byte, kind string) {
+	cs, obs := execRelay(mode, dns, ds)
 	e.emit("", "relay-"+mode, cs, obs, kind)
 }
 
-// parseRelayToks: relay <mode> ds <n> <hex>*n (tables already stripped).
-func parseRelayToks(toks []string) (string, [][]byte, error) {
-	if len(toks) < 4 || toks[2] != "ds" {
-		return "", nil, errors.New("relay <mode> ds <n> <hex>… expected")
+// parseRelayToks: relay <mode> <dns> ds <n> <hex>*n (tables already stripped).
+func parseRelayToks(toks []string) (string, bool, [][]byte, error) {
+	if len(toks) < 5 || toks[3] != "ds" {
+		return "", false, nil, errors.New("relay <mode> <dns> ds <n> <hex>… expected")
 	}
-	n, err := strconv.Atoi(toks[3])
-	if err != nil || len(toks) != 4+n {
-		return "", nil, errors.New("bad datagram count")
+	n, err := strconv.Atoi(toks[4])
+	if err != nil || len(toks) != 5+n {
+		return "", false, nil, errors.New("bad datagram count")
 	}
 	switch toks[1] {
 	case "paced", "burst", "gated":
 	default:
-		return "", nil, errors.New("unknown relay mode " + toks[1])
+		return "", false, nil, errors.New("unknown relay mode " + toks[1])
 	}
 	var ds [][]byte
-	for _, h := range toks[4:] {
+	for _, h := range toks[5:] {
 		ds = append(ds, vc.UnHex(h))
 	}
-	return toks[1], ds, nil
+	return toks[1], toks[2] == "1", ds, nil
 }
 
 // ---- generator
@@ -213,8 +266,11 @@ func relayDatagram(r *vc.Rand, i int) []byte {
 		d.atyp, d.addr = 3, domAddr([]byte(fmt.Sprintf("h%d.example", i)))
 	case 2:
 		d.atyp, d.addr = 4, randIP6(r)
-	case 3:
-		d.atyp, d.addr, d.port = 1, randIP4(r), 53 // DNS port without a DNS handler: goes to the tunnel
+	case 3: // DNS port: to the DNS handler when one is installed, else to the tunnel; sometimes the virtual DNS address
+		d.atyp, d.addr, d.port = 1, randIP4(r), 53
+		if r.Intn(2) == 0 {
+			d.addr = []byte{10, 0, 0, 1}
+		}
 	default:
 		d.atyp, d.addr = randAddr(r)
 	}
@@ -238,15 +294,24 @@ func genRelay(e *emitter, r *vc.Rand, thorough bool) {
 		for _, la := range []int{0, 1, 8, 300} {
 			for _, lb := range []int{0, 1, 8, 300} {
 				pa, pb := r.Bytes(la), r.Bytes(lb)
-				e.relay(mode, [][]byte{append(append([]byte{}, hdrA...), pa...), append(append([]byte{}, hdrB...), pb...)}, "relay-pair")
-				e.relay(mode, [][]byte{append(append([]byte{}, hdrA...), pa...), append(append([]byte{}, hdrA...), pb...)}, "relay-pair-same-dest")
+				e.relay(mode, lb%2 == 1, [][]byte{append(append([]byte{}, hdrA...), pa...), append(append([]byte{}, hdrB...), pb...)}, "relay-pair")
+				e.relay(mode, false, [][]byte{append(append([]byte{}, hdrA...), pa...), append(append([]byte{}, hdrA...), pb...)}, "relay-pair-same-dest")
 			}
 		}
-		e.relay(mode, nil, "relay-empty")
-		e.relay(mode, [][]byte{{0, 0, 1, 1}}, "relay-only-invalid")
+		e.relay(mode, false, nil, "relay-empty")
+		e.relay(mode, true, [][]byte{{0, 0, 1, 1}}, "relay-only-invalid")
 		dup := append(append([]byte{}, hdrA...), 9, 9, 9)
-		e.relay(mode, [][]byte{dup, dup, dup}, "relay-duplicates")
+		e.relay(mode, false, [][]byte{dup, dup, dup}, "relay-duplicates")
+		// names that spell IP literals: the answer comes back under the canonical address
+		for _, nm := range []string{"0:0:0:0:0:0:0:1", "::ffff:1.2.3.4", "1.2.3.4", "2001:DB8::1", "010.1.1.1"} {
+			d := dgram{atyp: 3, addr: domAddr([]byte(nm)), port: 4000, payload: []byte{1, 2}}
+			e.relay(mode, false, [][]byte{d.bytes()}, "relay-literal-name")
+		}
 	}
+	// the largest datagram whose answer (one octet longer) still fits a UDP datagram; the read buffer is 65535
+	big := dgram{atyp: 1, addr: []byte{10, 7, 7, 7}, port: 7, payload: r.Bytes(65506 - 10)}
+	e.relay("paced", false, [][]byte{big.bytes(), append(append([]byte{}, hdrA...), 1)}, "relay-max-datagram")
+	e.relay("burst", false, [][]byte{append(append([]byte{}, hdrA...), 1), big.bytes(), append(append([]byte{}, hdrB...), 2)}, "relay-max-datagram")
 	rounds := 60
 	if thorough {
 		rounds = 900
@@ -266,7 +331,7 @@ func genRelay(e *emitter, r *vc.Rand, thorough bool) {
 				// gate tells that the reader has consumed the whole burst
 				ds = append(ds, append([]byte{0, 0, 0, 1, 127, 9, 9, 9, 0, 9}, r.Bytes(3)...))
 			}
-			e.relay(mode, ds, "relay-random")
+			e.relay(mode, r.Intn(3) == 0, ds, "relay-random")
 		}
 	}
 }
